@@ -200,16 +200,20 @@ def pad_fields_with_symmetry_mirror(
 
 def get_anisotropic_averaging_widths(
     config: SimulationConfig,
+    periodic_axes: tuple[bool, bool, bool] = (False, False, False),
 ) -> tuple[jax.Array, jax.Array, jax.Array] | None:
     """Build the per-axis cell widths that spacing-weight the off-diagonal anisotropic average.
 
     The result depends only on the run-fixed grid, so the averaging functions take it as a
     precomputed input and operate on arrays alone; under JIT it folds to a constant with no
-    per-step cost. Each entry is the axis cell widths padded by replicating the edge cell (to
-    line up with the field halo) and reshaped to broadcast along that axis.
+    per-step cost. Each entry is the axis cell widths padded to line up with the field halo
+    and reshaped to broadcast along that axis. The halo cell replicates the edge cell, except
+    on axes whose halo wraps around (periodic/Bloch): there the halo cell *is* the cell at the
+    opposite end, so it carries that cell's width.
 
     Args:
         config (SimulationConfig): Simulation configuration providing the resolved grid.
+        periodic_axes (tuple[bool, bool, bool]): Axes whose field halo wraps around.
 
     Returns:
         tuple[jax.Array, jax.Array, jax.Array] | None: Per-axis padded cell widths, or None on
@@ -222,7 +226,10 @@ def get_anisotropic_averaging_widths(
     widths = []
     for axis in range(3):
         axis_widths = grid.cell_widths(axis)
-        padded = jnp.concatenate([axis_widths[:1], axis_widths, axis_widths[-1:]])
+        if periodic_axes[axis] and config.symmetry[axis] == 0:
+            padded = jnp.concatenate([axis_widths[-1:], axis_widths, axis_widths[:1]])
+        else:
+            padded = jnp.concatenate([axis_widths[:1], axis_widths, axis_widths[-1:]])
         broadcast_shape = [1, 1, 1]
         broadcast_shape[axis] = padded.shape[0]
         widths.append(padded.reshape(broadcast_shape))
@@ -366,7 +373,7 @@ def update_E(
         E_pad = pad_fields_for_boundaries(arrays.fields.E, objects, config)
 
         # Spacing weights for the off-diagonal average (None on a uniform grid).
-        aniso_widths = get_anisotropic_averaging_widths(config)
+        aniso_widths = get_anisotropic_averaging_widths(config, get_wrap_padding_axes(objects))
         # Compute the averages of the fields and curl
         Ex_y_avg = avg_anisotropic_E_component(
             E_pad, component=0, location=1, aniso_widths=aniso_widths
@@ -622,7 +629,7 @@ def update_E_reverse(
         curl_pad = pad_fields_for_boundaries(curl, objects, config)
 
         # Spacing weights for the off-diagonal average (None on a uniform grid).
-        aniso_widths = get_anisotropic_averaging_widths(config)
+        aniso_widths = get_anisotropic_averaging_widths(config, get_wrap_padding_axes(objects))
         # Compute the averages of the fields and curl
         Ex_y_avg = avg_anisotropic_E_component(
             E_pad, component=0, location=1, aniso_widths=aniso_widths
@@ -763,7 +770,7 @@ def update_H(
         curl_pad = pad_fields_for_boundaries(curl, objects, config)
 
         # Spacing weights for the off-diagonal average (None on a uniform grid).
-        aniso_widths = get_anisotropic_averaging_widths(config)
+        aniso_widths = get_anisotropic_averaging_widths(config, get_wrap_padding_axes(objects))
         # Compute the averages of the fields and curl
         Hx_y_avg = avg_anisotropic_H_component(
             H_pad, component=0, location=1, aniso_widths=aniso_widths
@@ -943,7 +950,7 @@ def update_H_reverse(
         curl_pad = pad_fields_for_boundaries(curl, objects, config)
 
         # Spacing weights for the off-diagonal average (None on a uniform grid).
-        aniso_widths = get_anisotropic_averaging_widths(config)
+        aniso_widths = get_anisotropic_averaging_widths(config, get_wrap_padding_axes(objects))
         # Compute the averages of the fields and curl
         Hx_y_avg = avg_anisotropic_H_component(
             H_pad, component=0, location=1, aniso_widths=aniso_widths
